@@ -25,15 +25,16 @@ const isFloat32 = 4
 const isFloat64 = 8
 
 func readNBytes(src *bufio.Reader, n int) []byte {
-	ret := make([]byte, n)
-	for i := 0; i < n; i++ {
-		ch, e := src.ReadByte()
-		if e != nil {
-			panic(fmt.Errorf("Tried to Read %d Bytes.. But hit end of file", n))
-		}
-		ret[i] = ch
+	if n < 0 {
+		panic(fmt.Errorf("Invalid length: %d", n))
 	}
-	return ret
+	// n comes from the input: let the buffer grow with the bytes actually
+	// read instead of allocating n bytes up front.
+	var buf bytes.Buffer
+	if _, e := io.CopyN(&buf, src, int64(n)); e != nil {
+		panic(fmt.Errorf("Tried to Read %d Bytes.. But hit end of file", n))
+	}
+	return buf.Bytes()
 }
 
 func readByte(src *bufio.Reader) byte {
@@ -222,7 +223,8 @@ func decodeStringToDataUrl(src *bufio.Reader, mimeType string) []byte {
 		panic(fmt.Errorf("Major type is: %d in decodeString", major))
 	}
 	length := decodeIntAdditionalType(src, minor)
-	l := int(length)
+	pbs := readNBytes(src, int(length))
+	l := len(pbs)
 	enc := base64.StdEncoding
 	lEnc := enc.EncodedLen(l)
 	result := make([]byte, len("\"data:;base64,\"")+len(mimeType)+lEnc)
@@ -233,7 +235,6 @@ func decodeStringToDataUrl(src *bufio.Reader, mimeType string) []byte {
 	dest = dest[u:]
 	u = copy(dest, ";base64,")
 	dest = dest[u:]
-	pbs := readNBytes(src, l)
 	enc.Encode(dest, pbs)
 	dest = dest[lEnc:]
 	dest[0] = '"'
